@@ -159,3 +159,45 @@ func isGlobalLoad(v ssa.Value, g string) bool {
 	}
 	return false
 }
+
+// loadIsResultOf: v is the call's (error) result, directly or as a load of a
+// local variable whose nearest dominating store (in the same function) stored
+// that result.
+func loadIsResultOf(v ssa.Value, call *ssa.Call) bool {
+	if v == ssa.Value(call) {
+		return true
+	}
+	if ex, ok := v.(*ssa.Extract); ok && ex.Tuple == ssa.Value(call) {
+		return true
+	}
+	u, ok := v.(*ssa.UnOp)
+	if !ok || u.Op != token.MUL {
+		return false
+	}
+	a, ok := u.X.(*ssa.Alloc)
+	if !ok {
+		return false
+	}
+	isFromCall := func(val ssa.Value) bool {
+		if val == ssa.Value(call) {
+			return true
+		}
+		ex, ok := val.(*ssa.Extract)
+		return ok && ex.Tuple == ssa.Value(call)
+	}
+	// nearest store before the load in its block, else walk up the dominator tree
+	b := u.Block()
+	idx := instrIndex(u)
+	for b != nil {
+		for i := idx - 1; i >= 0; i-- {
+			if st, ok := b.Instrs[i].(*ssa.Store); ok && st.Addr == ssa.Value(a) {
+				return isFromCall(st.Val)
+			}
+		}
+		b = b.Idom()
+		if b != nil {
+			idx = len(b.Instrs)
+		}
+	}
+	return false
+}
